@@ -98,13 +98,14 @@ pub fn world_syscall(world: &mut World, kind: SysKind, key: u8, value: u32, u: u
     let input = pack(state_id(kind, key, false), value);
     let out: Option<u32> = match kind
     {
-        SysKind::Plain => Some(by_key!(key, |f| world.syscall(input, f))),
+        // (two routes to the cached call: the method and the free function; `prep_fncall` needs `I: Clone`, which `In<T>` is not)
+        SysKind::Plain => Some(match value % 2 { 0 => by_key!(key, |f| world.syscall(input, f)), _ => by_key!(key, |f| syscall(world, input, f)) }),
         SysKind::Validated => Some(by_key!(key, |f| world.syscall_with_validation(input, f, |_| {}))),
         SysKind::Once => Some(by_key!(key, |f| world.syscall_once(input, f))),
         SysKind::OnceValidated => Some(by_key!(key, |f| world.syscall_once_with_validation(input, f, |_| {}))),
         SysKind::Named(n) => Some(by_key!(key, |f| named_syscall(world, n, input, f))),
         SysKind::NamedDirect(n) => by_key!(key, |f| named_syscall_direct::<In<u32>, u32>(world, sysname_of(&f, n), input).ok()),
-        SysKind::RegisterNamed(n) => { by_key!(key, |f| register_named_system(world, sysname_of(&f, n), f)); Some(0) }
+        SysKind::RegisterNamed(n) => { if value % 2 == 0 { by_key!(key, |f| register_named_system(world, sysname_of(&f, n), f)); } else { by_key!(key, |f| register_named_system_from(world, sysname_of(&f, n), CallbackSystem::new(f))); } Some(0) }
         SysKind::Spawned =>
         {
             let id = world.resource::<H>().sys[key as usize % 4];
@@ -119,7 +120,8 @@ pub fn cmd_syscall(c: &mut Commands, h: &mut H, kind: SysKind, key: u8, value: u
     let input = pack(state_id(kind, key, true), value);
     match kind
     {
-        SysKind::Plain => by_key_cmd!(key, |f| c.syscall(input, f)),
+        // (every other one through the `EntityCommands` of an unrelated, living entity)
+        SysKind::Plain => match (value % 2 == 1).then(|| c.get_entity(h.slots[0])).flatten() { Some(mut ec) => by_key_cmd!(key, |f| ec.syscall(input, f)), None => by_key_cmd!(key, |f| c.syscall(input, f)) },
         SysKind::Validated => by_key_cmd!(key, |f| c.syscall_with_validation(input, f, |_| {})),
         SysKind::Once => by_key_cmd!(key, |f| c.syscall_once(input, f)),
         SysKind::OnceValidated => by_key_cmd!(key, |f| c.syscall_once_with_validation(input, f, |_| {})),
@@ -161,8 +163,11 @@ pub fn spawn_sys_rc(world: &mut World, k: u8, key: u8)
 pub fn insert_sys(world: &mut World, k: u8, e: Entity, key: u8)
 {
     let k = k as usize % 4;
-    // one spawned system per entity (a second insert would replace the first one's component)
-    if world.resource::<H>().sys[k].is_some() || world.get_entity(e).is_err() || world.resource::<H>().sys.iter().flatten().any(|s| s.entity() == e) { return; }
+    // one spawned system per entity; inserting again into the entity that hosts this very slot's system is a new registration that
+    // replaces the old one (other combinations would replace some other slot's component)
+    let again = world.resource::<H>().sys[k].map(|id| id.entity() == e).unwrap_or(false);
+    if world.get_entity(e).is_err() { return; }
+    if !again && (world.resource::<H>().sys[k].is_some() || world.resource::<H>().sys.iter().flatten().any(|s| s.entity() == e)) { return; }
     let ok = { let mut c = world.commands(); match k { 0 => by_key!(key, |f| c.insert_system(e, f)), 1 => by_key_ps!(key, |f| c.insert_system(e, f)), 2 => by_key_cmd!(key, |f| c.insert_system(e, f)), _ => by_key_cmd_ps!(key, |f| c.insert_system(e, f)) } };
     world.flush();
     if ok.is_ok() { world.resource_mut::<H>().sys[k] = Some(SysId::new(e)); }
@@ -203,14 +208,16 @@ fn gen_kind(r: &mut Rng, min_key: u8) -> Option<(SysKind, u8)>
 
 pub fn gen_syscall(r: &mut Rng) -> Option<WOp>
 {
-    match r.below(14)
+    match r.below(16)
     {
         0 => Some(WOp::SpawnSys(r.below(4) as u8, r.below(NKEYS as u64) as u8)),
         1 => if r.chance(60) { Some(WOp::KillSys(r.below(4) as u8)) } else { Some(WOp::ClearSys(r.below(4) as u8)) },
         10 => Some(WOp::RevokeNamed(r.below(2) as u8, r.below(NKEYS as u64) as u8)),
         11 => Some(WOp::SpawnSysRc(r.below(4) as u8, r.below(NKEYS as u64) as u8)),
         12 => Some(WOp::DropSysRc(r.below(4) as u8)),
-        13 => Some(WOp::InsertSys(r.below(4) as u8, r.below(2) as u8, r.below(NKEYS as u64) as u8)),
+        // (a spawned-system slot always goes to the same entity slot, so that inserting again -- a new registration on an entity
+        // that already hosts one -- happens)
+        13 | 14 | 15 => { let k = r.below(4) as u8; Some(WOp::InsertSys(k, k % 2, r.below(NKEYS as u64) as u8)) }
         _ => { let (k, key) = gen_kind(r, 0)?; Some(WOp::Syscall(k, key, r.below(50) as u32)) }
     }
 }
